@@ -52,6 +52,9 @@ Free ==
     \/ \E f \in F : NewForce(f) /\ Hs("NewForce", "f", f, 1)
     \/ \E h \in H : CloneHandle(h) /\ Hs("CloneHandle", "h", h, 1)
     \/ \E s \in S, m \in Modes : OpenSlot(s, m) /\ Hs("OpenSlot" \o m, "s", s, 1)
+    \/ \E s \in S : DelayFlush(s) /\ Hs("DelayFlush", "s", s, 1)
+    \/ \E s \in S : /\ ReDelayFlush(s) /\ Hs("DelayFlush", "s", s, 1)
+                    /\ Cardinality({j \in 1..Len(hist) : hist[j][1] = "DelayFlush" /\ hist[j][3] = s}) < 2
     \/ \E s \in S : WaitForData(s) /\ Hs("WaitForData", "s", s, 1)
     \/ \E s \in S : MutSlot(s) /\ Hs("MutSlot", "s", s, 1)
     \/ opc = "live" /\ DropOwner1 /\ Hs("DropOwner1", "o", 0, 1)
